@@ -1,0 +1,13 @@
+// Copyright 2024 The Go Authors. All rights reserved.
+// Use of this source code is governed by a BSD-style
+// license that can be found in the LICENSE file.
+
+//go:build verif
+
+package modfile
+
+// VerifParse exposes the syntax-only parser to the runtime-verification
+// harness (build tag verif). It is not part of the public API.
+func VerifParse(file string, data []byte) (*FileSyntax, error) {
+	return parse(file, data)
+}
